@@ -816,30 +816,32 @@ func runC09(c *Ctx) {
 			}
 			return true
 		}
-		find := func(conds ...string) *ssa.If {
+		// find: the If testing one of the given conditions (in any equivalent spelling) and the successor taken
+		// when it holds
+		find := func(conds ...string) (*ssa.If, *ssa.BasicBlock) {
 			for _, iff := range ifsIn(fn) {
 				for _, cs := range conds {
-					if ex(iff.Cond) == cs {
-						return iff
+					if tb, _, hit := succWhen(iff, cs); hit {
+						return iff, tb
 					}
 				}
 			}
-			return nil
+			return nil, nil
 		}
 		// version
-		if iff := find("("+s.ver+" == 0)", "("+s.ver+" < 1)"); iff != nil {
-			r.Check(errorsOnly(iff.Block().Succs[0]) && firstGo(iff), "R9.1", s.fn+" version check", c.Pos(iff.Pos()), "missing version refused", "a missing protocol version does not lead to an error return")
+		if iff, tb := find("("+s.ver+" == 0)", "("+s.ver+" < 1)"); iff != nil {
+			r.Check(errorsOnly(tb) && firstGo(iff), "R9.1", s.fn+" version check", c.Pos(iff.Pos()), "missing version refused", "a missing protocol version does not lead to an error return")
 		} else {
 			r.Fail("R9.1", s.fn+" version check", c.Pos(fn.Pos()), "no `version == 0 → error` check")
 		}
-		if iff := find("("+s.sys+" < 1)", "("+s.sys+" == 0)"); iff != nil {
-			r.Check(errorsOnly(iff.Block().Succs[0]) && firstGo(iff), "R9.1", s.fn+" system id check", c.Pos(iff.Pos()), "zero system id refused", "a zero system id does not lead to an error return")
+		if iff, tb := find("("+s.sys+" < 1)", "("+s.sys+" == 0)"); iff != nil {
+			r.Check(errorsOnly(tb) && firstGo(iff), "R9.1", s.fn+" system id check", c.Pos(iff.Pos()), "zero system id refused", "a zero system id does not lead to an error return")
 		} else {
 			r.Fail("R9.1", s.fn+" system id check", c.Pos(fn.Pos()), "no `system id < 1 → error` check")
 		}
-		if iff := find("("+s.comp+" < 1)", "("+s.comp+" == 0)"); iff != nil {
+		if iff, tb := find("("+s.comp+" < 1)", "("+s.comp+" == 0)"); iff != nil {
 			ok := false
-			for _, in := range iff.Block().Succs[0].Instrs {
+			for _, in := range tb.Instrs {
 				if st, isSt := in.(*ssa.Store); isSt && ex(st.Addr) == "&"+s.comp && ex(st.Val) == "1" {
 					ok = true
 				}
@@ -848,8 +850,9 @@ func runC09(c *Ctx) {
 		} else {
 			r.Fail("R9.1", s.fn+" component default", c.Pos(fn.Pos()), "no `component id < 1 → 1` default")
 		}
-		k1, k2 := find("("+s.key+" != nil)"), find("("+s.ver+" != 2)")
-		ok := k1 != nil && k2 != nil && edgeMustPass(fn, edge{k1.Block(), k1.Block().Succs[0]}, k2.Block()) && errorsOnly(k2.Block().Succs[0]) && firstGo(k2)
+		k1, k1t := find("(" + s.key + " != nil)")
+		k2, k2t := find("(" + s.ver + " != 2)")
+		ok := k1 != nil && k2 != nil && edgeMustPass(fn, edge{k1.Block(), k1t}, k2.Block()) && errorsOnly(k2t) && firstGo(k2)
 		pos := c.Pos(fn.Pos())
 		if k2 != nil {
 			pos = c.Pos(k2.Pos())
@@ -1017,7 +1020,8 @@ func runC09(c *Ctx) {
 		}
 		ok := false
 		for _, iff := range ifsIn(fn) {
-			if ex(iff.Cond) != "("+w.ver+" == 1)" {
+			v1b, v2b, hit := succWhen(iff, "("+w.ver+" == 1)")
+			if !hit {
 				continue
 			}
 			kind := func(b *ssa.BasicBlock) string {
@@ -1035,7 +1039,7 @@ func runC09(c *Ctx) {
 				}
 				return ""
 			}
-			if kind(iff.Block().Succs[0]) == "&lit:frame.V1Frame" && kind(iff.Block().Succs[1]) == "&lit:frame.V2Frame" {
+			if kind(v1b) == "&lit:frame.V1Frame" && kind(v2b) == "&lit:frame.V2Frame" {
 				ok = true
 			}
 		}
